@@ -17,18 +17,18 @@ FILES = [MODEL, PROV, RREL, TOOLS, SCOP, MM]
 # (file, qualified-name prefix) -> properties whose mechanism runs through that function   (longest prefix wins)
 ATTRIB = [
     (MODEL, "get_model", ("C05", "C06")), (MODEL, "get_parent_of_type", ("C05",)), (MODEL, "get_children", ("C05",)), (MODEL, "get_children_of_type", ("C05",)),
-    (MODEL, "get_location", ("C06", "C33")), (MODEL, "textx_isinstance", ("C03", "C07")), (MODEL, "textxerror_wrap", ("C33",)),
+    (MODEL, "get_location", ("C06", "C33", "C28")), (MODEL, "textx_isinstance", ("C03", "C07")), (MODEL, "textxerror_wrap", ("C33",)),
     (MODEL, "parse_tree_to_objgraph", ("C09", "C13")), (MODEL, "parse_tree_to_objgraph.process_node", ("C01", "C02", "C05")), (MODEL, "parse_tree_to_objgraph.process_match", ("C01", "C04")),
     (MODEL, "parse_tree_to_objgraph.call_obj_processors", ("C13",)), (MODEL, "ReferenceResolver", ("C09", "C07")), (MODEL, "ReferenceResolver.resolve_one_step", ("C09", "C07", "C32", "C34")),
     (MODEL, "_end_model_construction", ("C14",)), (MODEL, "get_model_parser", ("C16",)),
     (PROV, "PlainName", ("C07",)), (PROV, "FQN", ("C10",)), (PROV, "ImportURI", ("C17",)), (PROV, "FQNImportURI", ("C17", "C10")), (PROV, "PlainNameImportURI", ("C17", "C07")),
     (PROV, "GlobalRepo", ("C17",)), (PROV, "RelativeName", ("C09",)), (PROV, "ExtRelativeName", ("C09",)),
-    (RREL, "", ("C11",)), (RREL, "create_rrel_scope_provider", ("C11", "C16")), (TOOLS, "", ("C09", "C11")), (SCOP, "", ("C17",)), (SCOP, "ModelRepository.remove_model", ("C18",)), (SCOP, "remove_models_from_repositories", ("C18",)),
+    (RREL, "", ("C11",)), (RREL, "create_rrel_scope_provider", ("C11", "C16")), (RREL, "parse", ("C11", "C12", "C16")), (TOOLS, "", ("C09", "C11")), (SCOP, "", ("C17",)), (SCOP, "ModelRepository.remove_model", ("C18",)), (SCOP, "remove_models_from_repositories", ("C18",)),
     (MM, "TextXMetaModel.internal_model_from_file", ("C17",)), (MM, "TextXMetaModel._init_obj_attrs", ("C01",)), (MM, "TextXMetaModel.process", ("C33", "C13")),
     (MM, "TextXMetaModel.has_obj_processor", ("C13",)), (MM, "TextXMetaModel.register_obj_processors", ("C13",)), (MM, "TextXMetaModel.register_scope_providers", ("C32",)),
     ("textx/model_params.py", "", ("C27",)),
-    (LANG, "TextXVisitor.visit_str_match", ("C20", "C21", "C01", "C02")), (LANG, "TextXVisitor.visit_re_match", ("C20", "C01")), (LANG, "TextXVisitor.visit_repeat_modifiers", ("C01", "C21", "C02")),
-    (LANG, "TextXVisitor.visit_obj_ref", ("C32", "C11")), (LANG, "TextXVisitor.visit_assignment", ("C01", "C02", "C32")), (LANG, "TextXVisitor.visit_textx_rule", ("C01", "C22")),
+    (LANG, "TextXVisitor.visit_str_match", ("C20", "C21", "C01", "C02", "C03", "C06")), (LANG, "TextXVisitor._resolve_rule_refs", ("C01", "C03", "C20")), (LANG, "TextXVisitor.visit_re_match", ("C20", "C01")), (LANG, "TextXVisitor.visit_repeat_modifiers", ("C01", "C21", "C02")),
+    (LANG, "TextXVisitor.visit_obj_ref", ("C32", "C11")), (LANG, "TextXVisitor.visit_assignment", ("C01", "C02", "C32", "C13", "C03")), (LANG, "TextXVisitor.visit_textx_rule", ("C01", "C22")),
     (LANG, "TextXVisitor.__init__", ("C21", "C20")), (LANG, "_compile_keyword", ("C20", "C21")), (LANG, "RuleCrossRef", ("C32", "C11")), (LANG, "ClassCrossRef", ("C25",)),
     (RREL, "RRELPath", ("C11", "C12")), (RREL, "RRELVisitor", ("C11", "C12")),
 ]
@@ -785,4 +785,4 @@ def families():
     for _f, _pre, ps in MEMO_ATTRIB: mp |= set(ps)
     op = set()
     for ps in OPT_PROPS.values(): op |= set(ps)
-    return {"T": allp, "M": mp, "O": op, "S": {"C19", "C16", "C20", "C21", "C01", "C02", "C32", "C11", "C12", "C22"}, "P": {"C09", "C11"}, "V": {"C07", "C08", "C09", "C28", "C34", "C33", "C23"}, "F": {"C17", "C19", "C20", "C21", "C22", "C26", "C27", "C28", "C30", "C31"}, "I": allp | {"C14", "C15", "C18", "C26", "C30", "C31"}, "Q": {"C09", "C10", "C11", "C17", "C07"}}
+    return {"T": allp, "M": mp, "O": op, "S": {"C19", "C16", "C20", "C21", "C01", "C02", "C32", "C11", "C12", "C22", "C03", "C06"}, "P": {"C09", "C11"}, "V": {"C07", "C08", "C09", "C28", "C34", "C33", "C23"}, "F": {"C17", "C19", "C20", "C21", "C22", "C26", "C27", "C28", "C30", "C31"}, "I": allp | {"C14", "C15", "C18", "C26", "C30", "C31"}, "Q": {"C09", "C10", "C11", "C17", "C07"}}
